@@ -51,7 +51,7 @@ struct Run {
 impl Monitor for C01 {
     fn case(&mut self, idx: u64, rng: &mut Rng, rep: &mut Report) {
         let pk = drive::ALL_PK[(idx % 7) as usize];
-        let cfg = drive::random_cfg(rng, pk);
+        let cfg = drive::random_cfg_skip(rng, pk);
         let size = match rng.below(400) {
             0 => self.max_size,           // a few large documents: default chunk size realigns
             1..=20 => 300.min(self.max_size),
@@ -64,6 +64,9 @@ impl Monitor for C01 {
         rep.inc("inputs");
         rep.inc(&format!("class:{}", input.class.name()));
         rep.inc(&format!("parser:{}", pk.name()));
+        if cfg.skip != 0 {
+            rep.inc("aiger_runs_skipping_sections");
+        }
         rep.count("input_bytes", len as u64);
         // reference: one-shot, default chunk
         let reference: Trace = sut(|| {
@@ -95,7 +98,7 @@ impl Monitor for C01 {
                 cfg,
             });
         }
-        if pk.is_aiger() {
+        if pk.is_aiger() && cfg.skip == 0 {
             let mut other = cfg;
             other.sections = !cfg.sections;
             runs.push(Run {
